@@ -1175,15 +1175,21 @@ class Deferred(Awaitable[_SelfResultT]):
     __repr__ = __str__
 
     def __iter__(self) -> Generator[Deferred[_SelfResultT], None, _SelfResultT]:
+        resumed = False
         while True:
-            if self.paused:
-                # If we're paused, we have no result to give
+            if self.paused or (self._runningCallbacks and not resumed):
+                # If we're paused, or in the middle of running our callbacks
+                # (the callback in progress has yet to produce our next
+                # result), we have no result to give: wait to be called back
+                # like any other callback added now would be.
                 yield self
+                resumed = True
                 continue
 
             result = getattr(self, "result", _NO_RESULT)
             if result is _NO_RESULT:
                 yield self
+                resumed = True
                 continue
 
             if isinstance(result, Failure):
